@@ -44,6 +44,7 @@ RULE = ("cases = (DDL text, entry point, configuration): texts = statement mixes
         "tree == exactly the expected dump files with JSON == the result; nothing else touched; stdout of -v/--no-dump literal_evals to the "
         "result. Non-trivial = result with >= 1 entity and a configuration that differs from the test-suite's (utf-8, no dump, default "
         "settings); distinct = distinct (text, entry point, configuration).")
+RULE += (" Added after seeded defects: empty-result texts (the dump must still hold []), hidden inputs (.init.sql), input directory names with glob characters and blanks, scripts from the shared pool.")
 ASSUMPTIONS = ["dump file name = input base name up to its first dot + '_schema.json' (the pinned behaviour named in the property's rationale)",
                "two inputs of one directory never share a stem (a hidden file such as .init.sql has the empty stem and dumps to _schema.json)",
                "directory mode: only lower-case .sql/.ddl/.hql/.bql names are judged eligible, names without one of the four extensions must be ignored",
